@@ -108,3 +108,6 @@ from vlib.props.pgen import replay_model  # noqa: E402,F401
 BOUNDS = ["<= 5 input scaffolds of <= 3 rows, <= 4 pieces (<= 1 cut); one tag of {Haplotig, Contaminant, FalseDuplicate, Target, Hap1/Hap2} per piece plus Painted"]
 OUTSIDE = ["pieces carrying two of the routing tags at once (precedence is not documented)", "the Primary tag", "more than two haplotypes", "file names chosen by name_assemblies (C16's harness runs them concretely)"]
 TRUSTED = ["CrossHair/z3", "documented_destination() in vlib/h/pipe.py is this check's reading of the README/help text", "integer abstraction of the PretextView model", "Fragment.key_tuple stub", "loader cuts"]
+
+TECHNIQUE = ("symbolic execution of the real remapping pipeline (CrossHair + z3) on tagged model maps; routing oracle against an independent reading of the documented rules")
+LEVEL_TEXT = ("Tag routing is decided for all geometries of each tagged template (tag on whole scaffold, first/later piece, cut half, Target mode, two haplotypes).")
